@@ -29,10 +29,13 @@ CONSTANTS Clients,     \* client threads
           Req,         \* Req[t] : the request thread t issues
           Nested,      \* requests whose reply carries a reference to an object of a class the holder has not seen
           InspOf,      \* InspOf[r] : the INSPECT request made while the reply of r is taken apart
+          Pool,        \* threads that only serve: `while True: serve(None)` (the workers of Connection.serve_threaded())
           Own          \* TRUE: a thread ignores its own entries among the replies in transit (the code);
                        \* FALSE: it does not (the first version of the repair; kept for the counterexample)
 
 None == "none"
+NoPool == {}
+Threads == Clients \cup Pool
 Tops == {Req[t] : t \in Clients}
 AllReqs == Tops \cup {InspOf[r] : r \in Nested}
 
@@ -47,8 +50,8 @@ VARIABLES stack,       \* stack[t] : sequence of activations [pc, want, data]; t
 vars == <<stack, wr, sendq, sendlock, sent, replied, chan, recvlock, waiters, notified, condlock, transit, cb, ready, dispatched, inspected>>
 
 Frame(pc, want) == [pc |-> pc, want |-> want, data |-> None]
-Init == /\ stack = [t \in Clients |-> <<Frame("start", Req[t])>>]
-        /\ wr = [t \in Clients |-> None] /\ sendq = <<>> /\ sendlock = None
+Init == /\ stack = [t \in Threads |-> <<Frame("start", IF t \in Clients THEN Req[t] ELSE None)>>]
+        /\ wr = [t \in Threads |-> None] /\ sendq = <<>> /\ sendlock = None
         /\ sent = {} /\ replied = {} /\ chan = <<>>
         /\ recvlock = None /\ waiters = {} /\ notified = {} /\ condlock = None
         /\ transit = <<>>
@@ -74,9 +77,20 @@ Issue(t, w, stk) == /\ cb' = cb \cup {w}
                             /\ stack' = [stack EXCEPT ![t] = SetPc(stk, "w_check")]
                             /\ UNCHANGED <<sendlock, wr>>
 
+\* where serve() returns to: the wait loop of the request, or - for a thread that only serves - the next serve(None)
+Back(t) == IF Cur(t).want = None THEN "loop" ELSE "w_check"
+
 Start(t) == /\ Pc(t) = "start"
-            /\ Issue(t, Cur(t).want, stack[t])
+            /\ IF Cur(t).want = None
+               THEN Goto(t, "loop") /\ UNCHANGED <<cb, wr, sendq, sendlock>>
+               ELSE Issue(t, Cur(t).want, stack[t])
             /\ UNCHANGED <<sent, replied, chan, recvlock, waiters, notified, condlock, transit, ready, dispatched, inspected>>
+
+\* a serving-only thread enters serve(None): `with self._recv_event:` (no readiness test - it waits for nothing)
+PoolEnter(t) == /\ Pc(t) = "loop" /\ condlock = None
+                /\ condlock' = t
+                /\ Goto(t, "trylock")
+                /\ UNCHANGED <<wr, sendq, sendlock, sent, replied, chan, recvlock, waiters, notified, transit, cb, ready, dispatched, inspected>>
 
 CWrite(t) == /\ Pc(t) = "c_write"
              /\ sent' = sent \cup {wr[t]}
@@ -116,7 +130,8 @@ OthersInTransit(t) == IF Own THEN \E i \in 1..Len(transit) : transit[i] # t ELSE
 TryLock(t) == /\ Pc(t) = "trylock"
               /\ condlock' = None
               /\ IF recvlock = None /\ ~OthersInTransit(t)
-                 THEN recvlock' = t /\ Goto(t, "recheck") /\ UNCHANGED <<waiters, notified>>
+                 THEN /\ recvlock' = t /\ UNCHANGED <<waiters, notified>>
+                      /\ Goto(t, IF Cur(t).want = None THEN "recv" ELSE "recheck")      \* (no second look without `until`)
                  ELSE \* held by another thread, or taken and released again because a reply of another thread is in transit
                       /\ waiters' = waiters \cup {t} /\ notified' = notified \ {t}
                       /\ Goto(t, "blocked") /\ UNCHANGED recvlock
@@ -124,11 +139,11 @@ TryLock(t) == /\ Pc(t) = "trylock"
 
 Blocked(t) == /\ Pc(t) = "blocked" /\ t \in notified /\ condlock = None
               /\ notified' = notified \ {t}
-              /\ Goto(t, "w_check")
+              /\ Goto(t, Back(t))
               /\ UNCHANGED <<UC, chan, recvlock, waiters, transit, cb, ready, dispatched, inspected>>
 
 Recheck(t) == /\ Pc(t) = "recheck"
-              /\ Goto(t, IF ready[Cur(t).want] THEN "release" ELSE "recv")
+              /\ Goto(t, IF Cur(t).want # None /\ ready[Cur(t).want] THEN "release" ELSE "recv")
               /\ UNCHANGED <<UC, chan, recvlock, waiters, notified, transit, cb, ready, dispatched, inspected>>
 
 Recv(t) == /\ Pc(t) = "recv" /\ chan # <<>>
@@ -144,7 +159,7 @@ Release(t) == /\ Pc(t) = "release"
 
 Notify(t) == /\ Pc(t) = "notify" /\ condlock = None
              /\ notified' = notified \cup waiters /\ waiters' = {}
-             /\ Goto(t, IF Cur(t).data = None THEN "w_check" ELSE "dispatch")
+             /\ Goto(t, IF Cur(t).data = None THEN Back(t) ELSE "dispatch")
              /\ UNCHANGED <<UC, chan, recvlock, transit, cb, ready, dispatched, inspected>>
 
 \* ------------------------------------------------------------------ _dispatch of a reply
@@ -179,10 +194,10 @@ RemoveOne(s, t) == LET i == CHOOSE j \in 1..Len(s) : s[j] = t
 Published(t) == /\ Pc(t) = "published" /\ condlock = None
                 /\ transit' = RemoveOne(transit, t)
                 /\ notified' = notified \cup waiters /\ waiters' = {}
-                /\ With(t, [Cur(t) EXCEPT !.pc = "w_check", !.data = None])
+                /\ With(t, [Cur(t) EXCEPT !.pc = Back(t), !.data = None])
                 /\ UNCHANGED <<UC, chan, recvlock, cb, ready, dispatched, inspected>>
 
-Step(t) == \/ Start(t) \/ CWrite(t) \/ WCheck(t) \/ WFinal(t) \/ Precheck(t) \/ TryLock(t) \/ Blocked(t) \/ Recheck(t)
+Step(t) == \/ PoolEnter(t) \/ Start(t) \/ CWrite(t) \/ WCheck(t) \/ WFinal(t) \/ Precheck(t) \/ TryLock(t) \/ Blocked(t) \/ Recheck(t)
            \/ Recv(t) \/ Release(t) \/ Notify(t) \/ Dispatch(t) \/ PopCb(t) \/ DExpired(t) \/ Publish(t) \/ Published(t)
 
 PeerReply(r) == /\ r \in sent \ replied
@@ -191,37 +206,38 @@ PeerReply(r) == /\ r \in sent \ replied
                 /\ UNCHANGED <<stack, wr, sendq, sendlock, sent, recvlock, waiters, notified, condlock, transit, cb, ready, dispatched, inspected>>
 
 AllDone == \A t \in Clients : Pc(t) = "done"
-Next == \/ \E t \in Clients : Step(t)
+Next == \/ \E t \in Threads : Step(t)
         \/ \E r \in AllReqs : PeerReply(r)
         \/ (AllDone /\ UNCHANGED vars)
-Fair == /\ \A t \in Clients : SF_vars(Step(t))
+Fair == /\ \A t \in Threads : SF_vars(Step(t))
         /\ \A r \in AllReqs : WF_vars(PeerReply(r))
 Spec == Init /\ [][Next]_vars /\ Fair
 
 -------------------------------------------------------------------------------------
 Holding(t) == Pc(t) \in {"recheck", "recv", "release"}
-RecvMutex == /\ \A t \in Clients : Holding(t) => recvlock = t
-             /\ Cardinality({t \in Clients : Holding(t)}) <= 1
+RecvMutex == /\ \A t \in Threads : Holding(t) => recvlock = t
+             /\ Cardinality({t \in Threads : Holding(t)}) <= 1
 DispatchedOnce == \A r \in AllReqs : dispatched[r] <= 1
 ReplyMatches == \A r \in AllReqs : ready[r] => r \in replied /\ dispatched[r] = 1
 \* the replies in transit are exactly the replies received and not yet published, thread by thread
 InTransit(t) == Cardinality({i \in 1..Depth(t) : stack[t][i].data # None})
-TransitExact == \A t \in Clients : Cardinality({i \in 1..Len(transit) : transit[i] = t}) = InTransit(t)
+TransitExact == \A t \in Threads : Cardinality({i \in 1..Len(transit) : transit[i] = t}) = InTransit(t)
 \* no thread can take a step (time-outs apart); with nothing to come from the peer this is a hang
-CanStep(t) == \/ Pc(t) \notin {"done", "blocked", "recv", "inspecting", "precheck", "notify", "published"}
-              \/ Pc(t) \in {"precheck", "notify", "published"} /\ condlock = None
+CanStep(t) == \/ Pc(t) \notin {"done", "blocked", "recv", "inspecting", "precheck", "notify", "published", "loop"}
+              \/ Pc(t) \in {"precheck", "notify", "published", "loop"} /\ condlock = None
               \/ Pc(t) = "blocked" /\ t \in notified /\ condlock = None
               \/ Pc(t) = "recv" /\ chan # <<>>
-Quiescent == \A t \in Clients : ~CanStep(t)
+Quiescent == \A t \in Threads : ~CanStep(t)
 NothingToCome == sent = replied /\ sendq = <<>>
 NoHang == ~(Quiescent /\ NothingToCome /\ ~AllDone)
 \* C14 with nesting: nobody is left sleeping for a result that has been published
-NoStall == \A t \in Clients : ~(Quiescent /\ Pc(t) \in {"blocked", "recv"} /\ ready[Cur(t).want])
+NoStall == \A t \in Threads : ~(Quiescent /\ Pc(t) \in {"blocked", "recv"} /\ Cur(t).want # None /\ ready[Cur(t).want])
 \* a sleeper in the condition wait has somebody who will notify it
-WillBeWoken == \A t \in Clients : (Pc(t) = "blocked" /\ t \notin notified) =>
+WillBeWoken == \A t \in Threads : (Pc(t) = "blocked" /\ t \notin notified) =>
                    \/ recvlock # None
                    \/ transit # <<>>
-                   \/ \E u \in Clients : Pc(u) = "notify"
-AtTheEnd == AllDone => transit = <<>> /\ recvlock = None /\ chan = <<>> /\ waiters = {}
+                   \/ \E u \in Threads : Pc(u) = "notify"
+AtTheEnd == (AllDone /\ Quiescent) => /\ transit = <<>> /\ chan = <<>>
+                                       /\ (Pool = {} => recvlock = None /\ waiters = {})
 Termination == <>AllDone
 =====================================================================================
